@@ -209,6 +209,7 @@ void TestIPhreeqc::model_dump(InvIPhreeqc* ip) {
   size_t n = e->count_unknowns;
   std::cout << "MODEL count_good " << e->count_good << " count_bad " << e->count_bad << " count_minimal " << e->count_minimal
             << " count_calls " << e->count_calls << " bits " << (e->count_good > 0 ? e->good[e->count_good - 1] : 0ul)
+            << " selfcheck " << (e->test_cl1_solution() ? 1 : 0) << " kode " << e->kode
             << " error " << hx::hexd(e->error) << " scaled_error " << hx::hexd(e->scaled_error) << " max_pct " << hx::hexd(e->max_pct) << "\n";
   vec("X", &e->inv_delta1[0], n);
   vec("MIN", &e->min_delta[0], n);
